@@ -64,6 +64,7 @@ Definition known_writes : list (str * str * wclass) :=
     ([101; 109; 105; 116; 70; 111; 114; 82; 97; 110; 103; 101; 83; 116; 109; 116]%N, [110; 111; 100; 101; 32; 112; 46; 115; 116; 109; 116; 46; 84; 111; 107]%N, WOwnedDecl) (* emitForRangeStmt | node p.stmt.Tok *);
     ([100; 101; 108; 101; 116; 101; 86; 97; 108; 117; 101; 83; 112; 101; 99]%N, [110; 111; 100; 101; 32; 100; 101; 99; 108; 46; 83; 112; 101; 99; 115]%N, WOwnedDecl) (* deleteValueSpec | node decl.Specs *);
     ([100; 101; 108; 101; 116; 101; 86; 97; 108; 117; 101; 83; 112; 101; 99]%N, [110; 111; 100; 101; 32; 118; 115; 112; 101; 99; 46; 78; 97; 109; 101; 115]%N, WOwnedDecl) (* deleteValueSpec | node vspec.Names *);
+    ([102; 111; 114; 83; 116; 109; 116; 46; 99; 111; 110; 100; 73; 110; 66; 111; 100; 121]%N, [110; 111; 100; 101; 32; 112; 46; 98; 111; 100; 121; 46; 76; 105; 115; 116]%N, WOwnedDecl) (* forStmt.condInBody | node p.body.List *);
     ([97; 115; 116; 86; 105; 115; 105; 116; 111; 114; 46; 86; 105; 115; 105; 116]%N, [110; 111; 100; 101; 32; 105; 100; 46; 79; 98; 106; 46; 68; 97; 116; 97]%N, WImportTable) (* astVisitor.Visit | node id.Obj.Data *);
     ([97; 115; 116; 86; 105; 115; 105; 116; 111; 114; 46; 86; 105; 115; 105; 116]%N, [110; 111; 100; 101; 32; 105; 100; 46; 78; 97; 109; 101]%N, WImportTable) (* astVisitor.Visit | node id.Name *);
     ([97; 115; 116; 86; 105; 115; 105; 116; 111; 114; 46; 86; 105; 115; 105; 116]%N, [110; 111; 100; 101; 32; 105; 100; 46; 79; 98; 106; 46; 78; 97; 109; 101]%N, WImportTable) (* astVisitor.Visit | node id.Obj.Name *);
